@@ -194,17 +194,25 @@ func repr(n *Node, r int) (v interface{}, ok bool) {
 }
 
 func c05Spec() genSpec {
-	if verif.Tier() > 0 {
-		return genSpec{depth: 2, keys: []string{"a", "b"}, maxList: 2, prims: 3, signed: true, mixed: true}
-	}
 	return genSpec{depth: 1, keys: []string{"a", "b"}, maxList: 2, prims: 1, signed: true, mixed: true}
+}
+
+// c05DeepSpec: thorough only, for one of the two members: depth 2 over one key, lists up to 1,
+// numbers and booleans (446 shapes).
+func c05DeepSpec() genSpec {
+	return genSpec{depth: 2, keys: []string{"a"}, maxList: 1, prims: 2, signed: true, mixed: true}
 }
 
 // H_C05_repr: the same tree in every Go representation gives the same data; feeding the
 // result back gives an identical config.
 func H_C05_repr() {
 	sp := c05Spec()
-	root := nDict().set("a", genNode("T.a", sp, true)).set("b", genNode("T.b", sp, true))
+	spA := sp
+	if verif.Tier() > 0 && verif.Choice("family", 2) == 1 {
+		spA = c05DeepSpec()
+		sp = genSpec{depth: 1, keys: []string{"a"}, maxList: 1, prims: 1, signed: true}
+	}
+	root := nDict().set("a", genNode("T.a", spA, true)).set("b", genNode("T.b", sp, true))
 	r := verif.Choice("repr", nReprs)
 	in, ok := repr(root, r)
 	verif.Assume(ok)
